@@ -719,6 +719,23 @@ theorem world_tx_deleverage_cannot_worsen_health {w w' : WState} {tx : List TOp}
   subst ecache
   exact ⟨a, ps0, m0, ha, hadm, hgrp, hps0, hm0, signer, rok, hlast, hsig, wl, al, psl, ml, hal, hpsl, hml, hworse⟩
 
+/-- a small world: one account without positions, no banks; 3 is the risk admin -/
+def demoWorld : WState :=
+  { now := 100,
+    g := { key := 1, admin := 2, riskAdmin := 3, paused := false, progFeeRate := 0, window := { dailyLimit := 0, withdrawnToday := 0, lastReset := 0 } },
+    accts := [{ key := 5, group := 1, authority := 7, flags := 0, slots := List.replicate 16 Account.emptySlot }],
+    banks := [], dustA := fun _ => 0, dustL := fun _ => 0 }
+
+/-- (non-vacuity) the risk admin's bracket commits; anybody else's does not; a start without its end, a deleverage closed by
+    an end_liquidation, a liquidation start inside it do not; a liquidation of this (healthy: empty) account does not start -/
+example : (demoWorld.runTx [.startDelev 0 3 true, .endDelev 0 3 true]).isSome = true := by decide
+example : (demoWorld.runTx [.startDelev 0 2 true, .endDelev 0 2 true]).isSome = false := by decide
+example : (demoWorld.runTx [.startDelev 0 3 false, .endDelev 0 3 true]).isSome = false := by decide
+example : (demoWorld.runTx [.startDelev 0 3 true]).isSome = false := by decide
+example : (demoWorld.runTx [.startDelev 0 3 true, .endLiq 0 3 true true 0]).isSome = false := by decide
+example : (demoWorld.runTx [.startDelev 0 3 true, .startLiq 0 3 true, .endDelev 0 3 true]).isSome = false := by decide
+example : (demoWorld.runTx [.startDelev 0 3 true, .ix (.tick 0), .endDelev 0 3 true]).isSome = false := by decide
+
 end whole_instructions
 
 end Mfi.Props.C10
